@@ -14,17 +14,17 @@ if [ "$1" = "--one" ]; then
   prop=${id%%-*}
   props="$prop $(python3 -c "import json;print(' '.join(json.load(open('$d/meta.json')).get('also_check',[])))" 2>/dev/null | grep -v conda)"
   # behaviour-preserving changes (harmless/R-k): the properties to check are listed in meta.json
-  if [ "$prop" = "R" ]; then props="$(python3 -c "import json;print(' '.join(json.load(open('$d/meta.json')).get('properties',[])))" 2>/dev/null | grep -v conda)"; fi
+  if [ "$prop" = "R" ] || [ "$prop" = "S" ] || [ "$prop" = "T" ]; then props="$(python3 -c "import json;print(' '.join(json.load(open('$d/meta.json')).get('properties',[])))" 2>/dev/null | grep -v conda)"; fi
   if ! git -C "$W" apply $d/patch.diff 2>/dev/null; then echo "$id apply-failed (the stored patch no longer applies to /repo HEAD)" > "$OUT/$id.res"
   else
     : > "$OUT/$id.res"
     for p in $props; do
-      PGVERIF_NO_CANARY=1 PGVERIF_REPO="$W" PGVERIF_EVIDENCE_DIR="$E" "$S"/check $p > "$E/$id.$p.log" 2>&1; rc=$?
+      PGVERIF_KANI_TARGET="$T/pgverif-seededp-kt.$id" PGVERIF_NO_CANARY=1 PGVERIF_REPO="$W" PGVERIF_EVIDENCE_DIR="$E" "$S"/check $p > "$E/$id.$p.log" 2>&1; rc=$?
       line=$(grep -m1 "VIOLATION\|UNDECIDED" "$E/$id.$p.log" | cut -c1-260)
       echo "$id check=$p rc=$rc $line" >> "$OUT/$id.res"
     done
   fi
-  git -C /repo worktree remove --force "$W" 2>/dev/null; rm -rf "$E"
+  git -C /repo worktree remove --force "$W" 2>/dev/null; rm -rf "$E" "$T/pgverif-seededp-kt.$id"
   exit 0
 fi
 cd /verif || exit 2
